@@ -74,9 +74,9 @@ SBT_EXTRA = {'Reservoir Model': 8, 'Reservoir Depth': '2.4 kilometer', 'Gradient
              'SBT Generate Wireframe Graphics': False, 'Power Plant Type': 2, 'End-Use Option': 1}
 
 
-def sbt_cfg(flags):
+def sbt_cfg(flags, K=1):
     """closed-loop (SBT, EavorLoop geometry with the junction below the vertical section) configuration family: SBTEconomics.Calculate."""
-    cfg = c04.cfg_of('electricity', 2, 1, False)
+    cfg = c04.cfg_of('electricity', 2, K, False)
     cfg.update({'pt': 2, 'extra': dict(SBT_EXTRA), 'family': 'sbt', 'flags': flags})
     return cfg
 
